@@ -1,7 +1,132 @@
-(* C07 — pipeline placeholder; replaced by the real statements *)
-From Gdsl.Model Require Import Base NodeOps.
-From Gdsl.Proofs Require Import NodeLemmas.
+(* C07 — Traversal callbacks see every reachable edge once; filters exclude.
+   Model: coq/model/Search.v + coq/model/Callback.v. `mk_cb step false pred []` is Method::ForEach with a closure that
+   records every edge it is handed (c_trace, newest first) and runs no operations. Filters: every soundness theorem
+   of C04/C05/C09/C10 is stated for an arbitrary pure `accept` and concludes IsPath/good_edge, i.e. every returned
+   edge satisfies accept, and reachability is Reach in the graph of accepted edges only; the *_exhaustive theorems
+   say the visited set is exactly that reachable set. *)
+From Gdsl.Model Require Import Spec Callback.
+From Gdsl.Proofs Require Import Worklist Descend Order SearchGlue.
 
-Theorem C07_placeholder_to_nil : forall (E : Type) v, to_ v (@nil (nat * E)) = [].
-Proof. exact to_nil. Qed.
-Print Assumptions C07_placeholder_to_nil.
+(* breadth-/priority-first without target: the closure is handed exactly the adjacency entries of the reachable nodes, each once (Permutation), oriented from the expanded node, with stored values *)
+Theorem c07_foreach_once_bfs_pfs :
+  forall (K V E : Type) (keqb : K -> K -> bool),
+       KeqbSpec keqb ->
+       forall (vleb : V -> V -> bool) (step : heap K V E -> op K V E -> heap K V E * outcome E)
+         (pred : K -> K -> E -> bool) (h : heap K V E),
+       Wf h ->
+       KeysInj h ->
+       forall (d : dir) (root : nat),
+       root < size h ->
+       forall (k : kind) (fuel : nat) (st : sst K V E (cbst E)),
+       k <> KDfs ->
+       search_path keqb (mk_cb step false pred []) vleb k d fuel h (cb0 E) root None false = (st, RNone E) ->
+       exists R : list nat,
+         NoDup R /\
+         (forall v : nat, In v R <-> Reach h d (fun _ : edge E => true) root v) /\
+         Permutation (rev (c_trace (s_cb st)))
+           (flat_map (fun u : nat => map (fun x : nat * E => (u, fst x, snd x)) (adj_of h d u)) R).
+Proof. exact wlq_foreach_once. Qed.
+Print Assumptions c07_foreach_once_bfs_pfs.
+
+(* depth-first without target: same *)
+Theorem c07_foreach_once_dfs :
+  forall (K V E : Type) (keqb : K -> K -> bool),
+       KeqbSpec keqb ->
+       forall (step : heap K V E -> op K V E -> heap K V E * outcome E) (pred : K -> K -> E -> bool)
+         (vleb : V -> V -> bool) (h : heap K V E),
+       Wf h ->
+       KeysInj h ->
+       forall (d : dir) (root : nat),
+       root < size h ->
+       forall (fuel : nat) (st : sst K V E (cbst E)),
+       search_path keqb (mk_cb step false pred []) vleb KDfs d fuel h (cb0 E) root None false = (st, RNone E) ->
+       exists R : list nat,
+         NoDup R /\
+         (forall v : nat, In v R <-> Reach h d (fun _ : edge E => true) root v) /\
+         Permutation (rev (c_trace (s_cb st)))
+           (flat_map (fun u : nat => map (fun x : nat * E => (u, fst x, snd x)) (adj_of h d u)) R).
+Proof. exact dfs_foreach_once. Qed.
+Print Assumptions c07_foreach_once_dfs.
+
+(* preorder and postorder: same *)
+Theorem c07_foreach_once_orderings :
+  forall (K V E : Type) (keqb : K -> K -> bool),
+       KeqbSpec keqb ->
+       forall (step : heap K V E -> op K V E -> heap K V E * outcome E) (pred : K -> K -> E -> bool)
+         (h : heap K V E),
+       Wf h ->
+       KeysInj h ->
+       forall (d : dir) (root : nat),
+       root < size h ->
+       forall (fuel : nat) (post : bool) (st : sst K V E (cbst E)) (tree : list (edge E)),
+       order_edges keqb (mk_cb step false pred []) d post fuel h (cb0 E) root = (st, Some tree) ->
+       exists R : list nat,
+         NoDup R /\
+         (forall v : nat, In v R <-> Reach h d (fun _ : edge E => true) root v) /\
+         Permutation (rev (c_trace (s_cb st)))
+           (flat_map (fun u : nat => map (fun x : nat * E => (u, fst x, snd x)) (adj_of h d u)) R).
+Proof. exact descend_foreach_once. Qed.
+Print Assumptions c07_foreach_once_orderings.
+
+(* with a pure filter: the recorded tree consists of accepted edges only and the visited nodes are exactly those reachable through accepted edges *)
+Theorem c07_filter_bfs_pfs :
+  forall (K V E : Type) (keqb : K -> K -> bool),
+       KeqbSpec keqb ->
+       forall (CB : Type) (cb : CB -> heap K V E -> edge E -> CB * heap K V E * bool)
+         (accept : edge E -> bool) (vleb : V -> V -> bool) (h : heap K V E),
+       Wf h ->
+       KeysInj h ->
+       PureCb h cb accept ->
+       forall (d : dir) (root : nat),
+       root < size h ->
+       forall (c0 : CB) (k : kind) (fuel : nat) (st : sst K V E CB),
+       k <> KDfs ->
+       search_path keqb cb vleb k d fuel h c0 root None false = (st, RNone E) ->
+       s_heap st = h /\
+       TreeOK h d accept root (s_tree st) /\
+       ~ In root (map (edst (E:=E)) (s_tree st)) /\
+       (forall v : nat, Reach h d accept root v <-> v = root \/ In v (map (edst (E:=E)) (s_tree st))).
+Proof. exact wlq_exhaustive. Qed.
+Print Assumptions c07_filter_bfs_pfs.
+
+(* depth-first: same *)
+Theorem c07_filter_dfs :
+  forall (K V E : Type) (keqb : K -> K -> bool),
+       KeqbSpec keqb ->
+       forall (CB : Type) (cb : CB -> heap K V E -> edge E -> CB * heap K V E * bool)
+         (accept : edge E -> bool) (vleb : V -> V -> bool) (h : heap K V E),
+       Wf h ->
+       KeysInj h ->
+       PureCb h cb accept ->
+       forall (d : dir) (root : nat),
+       root < size h ->
+       forall (c0 : CB) (fuel : nat) (st : sst K V E CB),
+       search_path keqb cb vleb KDfs d fuel h c0 root None false = (st, RNone E) ->
+       s_heap st = h /\
+       TreeOK h d accept root (s_tree st) /\
+       ~ In root (map (edst (E:=E)) (s_tree st)) /\
+       (forall v : nat, Reach h d accept root v <-> v = root \/ In v (map (edst (E:=E)) (s_tree st))).
+Proof. exact dfs_exhaustive. Qed.
+Print Assumptions c07_filter_dfs.
+
+(* orderings: only accepted edges, exactly the nodes reachable through accepted edges *)
+Theorem c07_filter_orderings :
+  forall (K V E : Type) (keqb : K -> K -> bool),
+       KeqbSpec keqb ->
+       forall (CB : Type) (cb : CB -> heap K V E -> edge E -> CB * heap K V E * bool)
+         (accept : edge E -> bool) (h : heap K V E),
+       Wf h ->
+       KeysInj h ->
+       PureCb h cb accept ->
+       forall (d : dir) (root : nat),
+       root < size h ->
+       forall (c0 : CB) (fuel : nat) (post : bool) (st : sst K V E CB) (tree : list (edge E)),
+       order_edges keqb cb d post fuel h c0 root = (st, Some tree) ->
+       Forall (good_edge h d accept) tree /\
+       NoDup (map (edst (E:=E)) tree) /\
+       ~ In root (map (edst (E:=E)) tree) /\
+       (forall v : nat, v <> root -> Reach h d accept root v <-> In v (map (edst (E:=E)) tree)) /\
+       (forall e : edge E, In e tree -> Reach h d accept root (esrc e)).
+Proof. exact order_edges_tree. Qed.
+Print Assumptions c07_filter_orderings.
+
